@@ -63,6 +63,19 @@ var mutOps = []mutOp{
 	{"empty-line", true, func(line string, w []string, emit func(string)) {
 		emit("")
 	}},
+	// a second blank between two tokens
+	{"double-space", true, func(line string, w []string, emit func(string)) {
+		ind := indentOf(line)
+		for j := 1; j < len(w); j++ {
+			emit(ind + strings.Join(w[:j], " ") + "  " + strings.Join(w[j:], " "))
+		}
+	}},
+	// the last token twelve more times (a long list of names or values)
+	{"repeat-last-token", true, func(line string, w []string, emit func(string)) {
+		if len(w) > 0 {
+			emit(strings.TrimRight(line, " ") + strings.Repeat(" "+w[len(w)-1], 12))
+		}
+	}},
 }
 
 var wholeFile = []struct{ name, text string }{
@@ -80,6 +93,7 @@ type c20 struct {
 	res     *core.Result
 	sc      *core.Scratch
 	seen    map[uint64]struct{}
+	viaBinary bool       // run the mutant through the drc binary
 	current atomic.Value // string: case being run (for the watchdog)
 	started atomic.Int64
 }
@@ -97,7 +111,21 @@ func (x *c20) runOne(model string, a, b core.Files, slot, op string, id string) 
 	x.seen[k] = struct{}{}
 	x.current.Store(id)
 	x.started.Store(time.Now().UnixNano())
-	out := x.sc.Compare(model, a, b)
+	var out core.Outcome
+	if x.viaBinary {
+		// inputs that may end in a fatal error (stack overflow) which cannot
+		// be recovered in-process: the built drc binary, 20 s limit
+		x.started.Store(0)
+		out = x.sc.CompareBinary(model, a, b, 20*time.Second)
+		if out.Status == 3 {
+			x.res.Evaluations++
+			x.res.Nontrivial++
+			x.violation(model, a, b, slot, op, "terminates", "hang:drc", "drc did not end within 20 s")
+			return
+		}
+	} else {
+		out = x.sc.Compare(model, a, b)
+	}
 	x.started.Store(0)
 	x.res.Evaluations++
 	x.res.Count("op:"+op, 1)
@@ -213,6 +241,50 @@ func c20Worker(ctx *core.Ctx) *core.Result {
 			nb.Raw = t
 			x.runOne(c.Model, a, nb, "raw", op, id("raw", op))
 		})
+		// structural operators: JSON (NSX), XML (PAN-OS)
+		type slotT struct {
+			name string
+			text string
+			run  func(op, t string)
+		}
+		slots := []slotT{
+			{"device", c.Device, func(op, t string) { x.runOne(c.Model, core.Files{Main: t}, b, "device", op, id("device", op)) }},
+			{"code", b.Main, func(op, t string) { nb := b; nb.Main = t; x.runOne(c.Model, a, nb, "code", op, id("code", op)) }},
+			{"code6", b.V6, func(op, t string) { nb := b; nb.V6 = t; x.runOne(c.Model, a, nb, "code6", op, id("code6", op)) }},
+			{"raw", b.Raw, func(op, t string) { nb := b; nb.Raw = t; x.runOne(c.Model, a, nb, "raw", op, id("raw", op)) }},
+		}
+		for _, sl := range slots {
+			if strings.TrimSpace(sl.text) == "" {
+				continue
+			}
+			switch c.Model {
+			case "NSX":
+				jsonMutants(sl.text, thorough, sl.run)
+			case "PAN-OS":
+				xmlMutants(sl.text, false, sl.run)
+				x.viaBinary = true
+				xmlMutants(sl.text, true, sl.run)
+				x.viaBinary = false
+			}
+		}
+		// role changes of whole files: the IPv4 code also given as raw file
+		// or as IPv6 code, the raw file given as code
+		if b.Main != "" {
+			nb := b
+			nb.Raw = b.Main
+			x.runOne(c.Model, a, nb, "raw", "role:main-as-raw", id("raw", "main-as-raw"))
+			nb = b
+			nb.V6 = b.Main
+			x.runOne(c.Model, a, nb, "code6", "role:main-as-v6", id("code6", "main-as-v6"))
+			nb = core.Files{Raw: b.Main, Info: b.Info}
+			x.runOne(c.Model, a, nb, "raw", "role:only-raw", id("raw", "only-raw"))
+			x.runOne(c.Model, a, core.Files{Main: b.Main, Raw: c.Device, Info: b.Info}, "raw", "role:device-as-raw", id("raw", "device-as-raw"))
+		}
+		if b.Raw != "" {
+			nb := b
+			nb.Main = b.Raw
+			x.runOne(c.Model, a, nb, "code", "role:raw-as-main", id("code", "raw-as-main"))
+		}
 		if ci%8 == 0 || thorough {
 			for _, wf := range wholeFile {
 				x.runOne(c.Model, core.Files{Main: wf.text}, b, "device", "whole:"+wf.name, id("device", wf.name))
@@ -274,7 +346,7 @@ func c20Worker(ctx *core.Ctx) *core.Result {
 func init() {
 	registerSharded("C20", c20Worker, func(tier string) core.Meta {
 		return core.Meta{ID: "C20", Level: "exploration",
-			Rule: "the statement's finite family, enumerated completely: for every configuration line of every DEVICE and NETSPOC block (main, ipv6, raw) of go/testdata/*.t, in the context of its own test: every word-prefix truncation, single-token deletion, line emptied (quick) plus token duplication, adjacent swap, indentation +1/-1/0, truncation of the file at every line (thorough); whole-file cases (empty, NUL, 64 KiB token, unterminated quote, only [APPEND], binary); both argument positions; the part-shape combinations of C18 as further legal inputs (crash oracle only); info files: every prefix truncation and type confusion; each mutant goes through the real device.CompareFiles in-process; verdict: exit status 0 or 1, message on stderr when 1, no runtime panic, no case longer than 20 s; identical mutants are run once; non-trivial = mutants the tool rejected or crashed on; status files and do-approve/missing-approve inputs: see C13 (damaged status files)",
+			Rule: "the statement's finite family, enumerated completely: for every configuration line of every DEVICE and NETSPOC block (main, ipv6, raw) of go/testdata/*.t, in the context of its own test: every word-prefix truncation, single-token deletion, line emptied (quick) plus token duplication, adjacent swap, indentation +1/-1/0, truncation of the file at every line (thorough); a second blank between two tokens, the last token repeated 12 times; structural operators for JSON inputs (NSX: every value replaced by null; thorough: by an empty array, object or string, a number, every key deleted) and XML inputs (PAN-OS: every element emptied / deleted; every <member> of an entry replaced by the entry's own name - these through the drc binary, since a stack overflow cannot be recovered in-process); role changes of whole files (IPv4 code also as raw / as IPv6 code / only as raw, device configuration as raw, raw as code); whole-file cases (empty, NUL, 64 KiB token, unterminated quote, only [APPEND], binary); both argument positions; the part-shape combinations of C18 as further legal inputs (crash oracle only); info files: every prefix truncation and type confusion; each mutant goes through the real device.CompareFiles in-process; verdict: exit status 0 or 1, message on stderr when 1, no runtime panic, no case longer than 20 s; identical mutants are run once; non-trivial = mutants the tool rejected or crashed on; status files and do-approve/missing-approve inputs: see C13 (damaged status files)",
 			Assumptions: []string{"a runtime panic recovered in-process is what the binaries turn into exit status 2 plus a Go trace (confirmed on the real binary for each call site listed in known-findings.json)"},
 			Bounds:      map[string]any{"quick": "truncate, delete-token, empty-line operators", "thorough": "all operators + file truncations"},
 		}
